@@ -329,7 +329,7 @@ def run_gevp_obs(pe, acc, case):
 
 def run_gevp_obs_variant(pe, acc, case, antisym):
     N, T = case['N'], case['T']
-    C = make_corr(pe, N, T, 'obs', antisym=antisym)
+    C = make_corr(pe, N, T, ('obs', antisym), antisym=antisym)      # different data per variant: two different matrices of the same size are solved one after the other
     Csym = C.matrix_symmetric() if antisym else C
     G = {t: sym(mean_matrix(C, t)) for t in range(T)}
     for t0 in (1, 2):
